@@ -585,7 +585,16 @@ Fixpoint census (v : val) : list cls :=
    dict in place; false = they rebind the attribute through cls, which gives a subclass a shadowing copy. *)
 Inductive regkind := KD2C | KC2D.
 Inductive entrypoint := EpBase | EpSer (s : N).
-Record regop := { op_add : bool; op_ep : entrypoint; op_kind : regkind; op_tag : text }.
+(* op_bytes: the tag argument was spelled as bytes (op_tag then holds the bytes); otherwise op_tag is the text *)
+Record regop := { op_add : bool; op_ep : entrypoint; op_kind : regkind; op_bytes : bool; op_tag : text }.
+
+(* The dict key a call uses for its tag argument.  [norm] (generated, separately for register and unregister) says
+   whether the method decodes a bytes argument to text first, as dict_to_class does with a bytes tag; a failing decode
+   raises and leaves the registry untouched (None).  A bytes argument that is not decoded becomes a bytes key, which no
+   text tag ever equals: it is kept apart by a leading mark that is not a code point. *)
+Definition bytes_key_mark : N := 1114112.
+Definition key_of (norm : bool) (op : regop) : option text :=
+  if op_bytes op then (if norm then utf8 (op_tag op) else Some (bytes_key_mark :: op_tag op)) else Some (op_tag op).
 Record regstate := { rs_base : list text; rs_shadow : list (N * list text) }.
 
 Definition kind_eqb (a b : regkind) : bool := match a, b with KD2C, KD2C | KC2D, KC2D => true | _, _ => false end.
@@ -600,29 +609,40 @@ Definition set_shadow (s : N) (l : list text) (sh : list (N * list text)) : list
 Definition view (st : regstate) (s : N) : list text :=
   match shadow_of s (rs_shadow st) with Some l => l | None => rs_base st end.
 
-Definition reg_step (inplace : bool) (st : regstate) (op : regop) : regstate :=
+Definition reg_step_key (inplace : bool) (st : regstate) (op : regop) (key : text) : regstate :=
   match op_ep op with
-  | EpBase => {| rs_base := upd (op_add op) (op_tag op) (rs_base st); rs_shadow := rs_shadow st |}
+  | EpBase => {| rs_base := upd (op_add op) key (rs_base st); rs_shadow := rs_shadow st |}
   | EpSer s =>
     match shadow_of s (rs_shadow st) with
-    | Some l => {| rs_base := rs_base st; rs_shadow := set_shadow s (upd (op_add op) (op_tag op) l) (rs_shadow st) |}
+    | Some l => {| rs_base := rs_base st; rs_shadow := set_shadow s (upd (op_add op) key l) (rs_shadow st) |}
     | None =>
-      if inplace then {| rs_base := upd (op_add op) (op_tag op) (rs_base st); rs_shadow := rs_shadow st |}
-      else if op_add op || mem (op_tag op) (rs_base st)     (* unregister of an absent tag rebinds nothing *)
-           then {| rs_base := rs_base st; rs_shadow := set_shadow s (upd (op_add op) (op_tag op) (rs_base st)) (rs_shadow st) |}
+      if inplace then {| rs_base := upd (op_add op) key (rs_base st); rs_shadow := rs_shadow st |}
+      else if op_add op || mem key (rs_base st)     (* unregister of an absent tag rebinds nothing *)
+           then {| rs_base := rs_base st; rs_shadow := set_shadow s (upd (op_add op) key (rs_base st)) (rs_shadow st) |}
            else st
     end
   end.
+(* nr / nu: does register / unregister decode a bytes tag argument *)
+Definition reg_step (inplace nr nu : bool) (st : regstate) (op : regop) : regstate :=
+  match key_of (if op_add op then nr else nu) op with
+  | None => st
+  | Some key => reg_step_key inplace st op key
+  end.
 
 Definition of_kind (k : regkind) (h : list regop) : list regop := filter (fun op => kind_eqb (op_kind op) k) h.
-Definition run_hist (inplace : bool) (k : regkind) (h : list regop) : regstate :=
-  fold_left (reg_step inplace) (of_kind k h) {| rs_base := []; rs_shadow := [] |}.
-Definition effective (inplace : bool) (k : regkind) (h : list regop) (s : N) : list text := view (run_hist inplace k h) s.
+Definition run_hist (inplace nr nu : bool) (k : regkind) (h : list regop) : regstate :=
+  fold_left (reg_step inplace nr nu) (of_kind k h) {| rs_base := []; rs_shadow := [] |}.
+Definition effective (inplace nr nu : bool) (k : regkind) (h : list regop) (s : N) : list text := view (run_hist inplace nr nu k h) s.
 
-(* the specification: a tag is registered iff the last call that named it (through whichever entry point) was a register *)
-Definition last_wins (t : text) (b : bool) (op : regop) : bool := if text_eqb t (op_tag op) then op_add op else b.
-Definition currently_registered (k : regkind) (h : list regop) (t : text) : bool :=
-  fold_left (last_wins t) (of_kind k h) false.
+(* the specification: the registry is a map from keys to converters — a key is registered iff the last successful call
+   that named it (through whichever entry point, in whichever spelling) was a register *)
+Definition last_wins (norm : bool) (t : text) (b : bool) (op : regop) : bool :=
+  match key_of norm op with Some k => if text_eqb t k then op_add op else b | None => b end.
+Definition currently_registered (norm : bool) (k : regkind) (h : list regop) (t : text) : bool :=
+  fold_left (last_wins norm t) (of_kind k h) false.
+(* a call of the given kind with the same tag argument *)
+Definition same_arg (add : bool) (ep : entrypoint) (op : regop) : regop :=
+  {| op_add := add; op_ep := ep; op_kind := op_kind op; op_bytes := op_bytes op; op_tag := op_tag op |}.
 
 (* does a serializer's own dict_to_class override (serpent: the tag "float", its NaN encoding) take this tag?
    If so the base class — and with it the registry — is never consulted for it. *)
